@@ -4,7 +4,11 @@ import "github.com/circlefin/noble-cctp/x/cctp/verifrt"
 
 func init() {
 	verifrt.Register("Harness_C14_Receive", Harness_C14_Receive)
+	verifrt.Register("Harness_C14_ReceiveWithEventFaults", Harness_C14_ReceiveWithEventFaults)
 }
+
+// the same with every event emission allowed to fail
+func Harness_C14_ReceiveWithEventFaults() { receiveLemma("C14", true) }
 
 // one symbolic ReceiveMessage from an arbitrary invariant-satisfying state (see receive.go)
 func Harness_C14_Receive() { receiveLemma("C14", false) }
